@@ -278,6 +278,53 @@ func c06(r *report.Run) {
 	if stepSkipped != "" {
 		r.Set("step_invariant_skipped", stepSkipped)
 	}
+	// The same oracle on ONE long-lived VM value: earlier runs (their allocations, the budget in force when the
+	// VM was first used) must not change whether a later run is refused.
+	var reuseRuns int64
+	{
+		long := &vm.VM{}
+		lim := len(cases)
+		if lim > 1500 {
+			lim = 1500
+		}
+		budgets := []int{10, 4, 12, 2, 7}
+		step := 0
+		for i := 0; i < lim; i++ {
+			c := cases[i]
+			if c.progs[1] == nil {
+				continue
+			}
+			for vi, v := range c.vals {
+				if c.rfail[vi] {
+					continue
+				}
+				b := budgets[step%len(budgets)]
+				step++
+				vm.MemoryBudget = b
+				_, err := func() (out interface{}, err error) {
+					defer func() {
+						if p := recover(); p != nil {
+							err = fmt.Errorf("panic %v", p)
+						}
+					}()
+					return long.Run(c.progs[1], sl.modes[1].RunEnv(henv.Make(v), c.names))
+				}()
+				reuseRuns++
+				kind := ""
+				if c.need[vi] >= b && err == nil {
+					kind = "over-budget-run-succeeds"
+				} else if c.need[vi] < b && err != nil {
+					kind = "under-budget-run-refused"
+				}
+				if kind != "" {
+					r.Report(report.Violation{Sub: "reused-vm", Kind: kind, Witness: "long-lived VM after earlier runs and budget changes", Order: int64(len(cases)) + reuseRuns,
+						Detail: map[string]interface{}{"source": c.e.String(), "env": v.Describe(), "budget": b, "reference_allocation_count": c.need[vi], "runs_before_on_this_vm": reuseRuns - 1}})
+					long = &vm.VM{} // continue with a fresh one so that one defect does not flood the report
+				}
+			}
+		}
+	}
+	r.Set("reused_vm_runs", reuseRuns)
 	// Boundary family at the default budget.
 	vm.MemoryBudget = saved
 	type benv struct{ N, M int }
